@@ -77,6 +77,8 @@ var c15Paths = []string{
 	"example.com/mod", "a.b.c/d.e", "example.com/mod/template",
 	// one-element paths that are also the natural import name of a longer path
 	"example.com/q/x", "bar", "foo", "v1",
+	// an element that merely ends in "vendor"; a path that has the target path as a proper suffix
+	"example.com/shop/multivendor/model", "mirror.example.com/mod/target", "xexample.com/mod/target",
 }
 
 var c15Names = []string{"T", "Name", "List", "M", "P", "x", "T2", "_t"}
@@ -456,7 +458,7 @@ func TestC15(t *testing.T) {
 	r := ev.Begin(t, ev.Meta{
 		ID:    "C15",
 		Level: "exploration",
-		Rule: "reference trees from ref ::= [path '.'] ident ['[' ref {',' ref} ']'] with depth <= 4, width <= 4, paths from a pool of 26 " +
+		Rule: "reference trees from ref ::= [path '.'] ident ['[' ref {',' ref} ']'] with depth <= 4, width <= 4, paths from a pool of 29 " +
 			"(std, dotted hosts, vN, apis/domain, punctuation variants, the target package), printed by the harness and fed to ParseTypeRef, " +
 			"ParseRef, Ref, PkgImportPathAndExpose and snippet.ID/PkgExpose; non-trivial = depth >= 2 and >= 2 arguments at some level; " +
 			"distinct by JSON encoding; the enumerate sub lists every tree up to a node bound over 6 labels",
